@@ -15,3 +15,5 @@ import EmuVerif.Props.C33
 #print axioms EmuVerif.Props.C33.dmrg_refuses_effective_noise_partial
 #print axioms EmuVerif.Props.C33.dmrg_device_noise_counterexample
 #print axioms EmuVerif.Props.C33.dmrg_refuses_effective_noise_fixed
+#print axioms EmuVerif.Props.C33.dmrg_refuses_noise_any_form
+#print axioms EmuVerif.Props.C33.dmrg_identity_counterexample
